@@ -451,6 +451,9 @@ func settle(giveUp time.Duration) error {
 			// anywhere else (a library waiting for a helper goroutine, a mutex) is on its way
 			state := strings.TrimSpace(strings.SplitN(strings.Trim(strings.Join(f[2:], " "), "[]:"), ",", 2)[0])
 			atRest := parked[state] && (strings.Contains(body, "pkicrl.(*gates).block") || strings.Contains(body, "sync.(*WaitGroup).Wait"))
+			if state == "select" && strings.Contains(body, "pki.(*validator).syncLoop") && !strings.Contains(body, "pki.(*validator).sync(") {
+				atRest = true // the real sync loop waiting for its next tick
+			}
 			if !atRest {
 				active = head
 			}
@@ -491,6 +494,9 @@ type env struct {
 	ledg  []*delivery
 	reqs  []string // actor names in order of their requests
 	sabot string
+	// stress probe: nothing is gated; the first request of an endpoint gets what is served, every later one fails
+	ungated   bool
+	firstOnly map[string]int
 }
 
 func (e *env) clock() time.Time {
@@ -547,12 +553,21 @@ func (t *transportT) RoundTrip(req *http.Request) (*http.Response, error) {
 	}
 	e.reqs = append(e.reqs, actor+">"+key)
 	e.mu.Unlock()
+	if e.ungated {
+		free = true
+	}
 	if !free {
 		e.g.block(actor, "rt:"+key)
 	}
 	// the response is determined now
 	e.mu.Lock()
 	id := e.srv[key]
+	if e.firstOnly != nil {
+		e.firstOnly[key]++
+		if e.firstOnly[key] > 1 {
+			id = "none"
+		}
+	}
 	d := &delivery{Actor: actor, Key: key, Obj: id, gid: gid, Free: free}
 	e.ledg = append(e.ledg, d)
 	e.mu.Unlock()
